@@ -14,6 +14,8 @@ CONSTANTS MaxW,        \* weight bound
           MaxCombs,    \* combinators per schema
           MutW,        \* schemas of weight < MutW are mutated (0 = none)
           LayoutSel,   \* indices of the layouts applied to every complete derivation
+          Focus,       \* TRUE = the initial states are the complete derivations of ArithFocus (arithmetic in every
+                       \*        position that takes it); with MaxW = 0 only Layout and Mutate act on them
           Sem          \* TRUE = only schemas the compiler accepts after the prelude (canonical listing)
 
 VARIABLE st
@@ -164,7 +166,10 @@ Layouts == <<
   [sep |-> "cmt",  app |-> "mix",   par |-> FALSE, bin |-> TRUE,  ar |-> "lz",    arrow |-> TRUE,  lead |-> FALSE],
   [sep |-> "mix",  app |-> "angle", par |-> TRUE,  bin |-> FALSE, ar |-> "plain", arrow |-> FALSE, lead |-> FALSE],
   [sep |-> "crlf", app |-> "paren", par |-> FALSE, bin |-> TRUE,  ar |-> "paren", arrow |-> FALSE, lead |-> FALSE],
-  [sep |-> "tab",  app |-> "mix",   par |-> TRUE,  bin |-> FALSE, ar |-> "fold",  arrow |-> TRUE,  lead |-> TRUE] >>
+  [sep |-> "tab",  app |-> "mix",   par |-> TRUE,  bin |-> FALSE, ar |-> "fold",  arrow |-> TRUE,  lead |-> TRUE],
+  [sep |-> "sp",   app |-> "paren", par |-> FALSE, bin |-> FALSE, ar |-> "lp",    arrow |-> FALSE, lead |-> FALSE],
+  [sep |-> "min",  app |-> "angle", par |-> FALSE, bin |-> FALSE, ar |-> "rp",    arrow |-> FALSE, lead |-> FALSE],
+  [sep |-> "nl",   app |-> "mix",   par |-> FALSE, bin |-> TRUE,  ar |-> "pp",    arrow |-> TRUE,  lead |-> FALSE] >>
 ASSUME LayoutSel \subseteq 1..Len(Layouts)
 
 Expected(cs, lay) == IF lay.ar = "fold" THEN [i \in 1..Len(cs) |-> FoldC(cs[i])] ELSE cs
@@ -173,7 +178,28 @@ Expected(cs, lay) == IF lay.ar = "fold" THEN [i \in 1..Len(cs) |-> FoldC(cs[i])]
 NoComb == [mods |-> <<>>, ns |-> "", nm |-> "", tag |-> "", ta |-> <<>>, bi |-> FALSE, fs |-> <<>>, fn |-> FALSE,
            dns |-> "", dnm |-> "", da |-> <<>>, res |-> <<>>]
 
-Init == st = [ph |-> "start", done |-> <<>>, cur |-> NoComb, w |-> 0]
+(* arithmetic in every position of the grammar that takes it: argument of an application (alone, after a type, *)
+(* nested), repetition scale (outer and nested), inside a repetition body, after a field mask, function result *)
+IntOf(args) == Ty(FALSE, "", "int", args)
+Ar1 == <<N(1)>>
+Ar2 == <<N(1), N(2)>>
+Ar3 == <<N(1), N(2), N(3)>>
+BodyInt == <<Fld("", <<>>, FALSE, Atom("", "int"))>>
+TypeComb(fs) == [NoComb EXCEPT !.nm = "a", !.dnm = "A", !.fs = fs]
+ArithFocus ==
+     {TypeComb(<<Fld("x", <<>>, FALSE, IntOf(<<ArgN(e)>>))>>) : e \in {Ar1, Ar2, Ar3}}
+  \cup {TypeComb(<<Fld("x", <<>>, FALSE, IntOf(<<ArgT(Atom("", "int")), ArgN(e)>>))>>) : e \in {Ar1, Ar2}}
+  \cup {TypeComb(<<Fld("x", <<>>, FALSE, IntOf(<<ArgN(e), ArgT(Atom("", "int"))>>))>>) : e \in {Ar2}}
+  \cup {TypeComb(<<Fld("x", <<>>, FALSE, IntOf(<<ArgT(IntOf(<<ArgN(e)>>))>>))>>) : e \in {Ar1, Ar2}}
+  \cup {TypeComb(<<FldRep("x", <<>>, FALSE, "ar", "", e, BodyInt)>>) : e \in {Ar1, Ar2, Ar3}}
+  \cup {TypeComb(<<Fld("n", <<>>, FALSE, Hash), FldRep("x", <<>>, FALSE, "ar", "", e, BodyInt)>>) : e \in {Ar2}}
+  \cup {TypeComb(<<FldRep("x", <<>>, FALSE, "none", "", <<>>, <<Fld("y", <<>>, FALSE, IntOf(<<ArgN(e)>>))>>)>>) : e \in {Ar1, Ar2}}
+  \cup {TypeComb(<<FldRep("x", <<>>, FALSE, "none", "", <<>>, <<FldRep("y", <<>>, FALSE, "ar", "", e, BodyInt)>>)>>) : e \in {Ar2}}
+  \cup {TypeComb(<<Fld("n", <<>>, FALSE, Hash), Fld("x", Mask("n", N(0)), FALSE, IntOf(<<ArgN(e)>>))>>) : e \in {Ar2}}
+  \cup {[NoComb EXCEPT !.nm = "a", !.fn = TRUE, !.res = <<IntOf(<<ArgN(e)>>)>>] : e \in {Ar1, Ar2, Ar3}}
+
+Init == IF Focus THEN st \in {[ph |-> "idle", done |-> <<c>>, cur |-> NoComb, w |-> 0] : c \in ArithFocus}
+        ELSE st = [ph |-> "start", done |-> <<>>, cur |-> NoComb, w |-> 0]
 
 (* ---- mode derive: one action per production ---- *)
 Left == MaxW - st.w
@@ -220,14 +246,17 @@ DFinishFn == /\ st.ph \in {"head", "fields"} /\ st.cur.fn
 Layout == /\ st.ph = "idle"
           /\ \E l \in LayoutSel : st' = [ph |-> "laid", done |-> st.done, w |-> st.w, l |-> l]
 (* ... or its significant tokens (plain layout) are mutated and written with single spaces *)
-Sig0 == SigToks(st.done, Layouts[1])
+(* ... in the focus mode the parenthesised spellings of arithmetic are mutated as well *)
+MutLayouts == IF Focus THEN {1, 9} ELSE {1}
+MutAlphabet == IF Focus THEN Core1 ELSE Alphabet      \* the focus mode replaces by one lexeme per token kind
 Mutate == /\ st.ph = "idle" /\ st.w < MutW /\ ~Sem
-          /\ LET s == Sig0 IN
+          /\ \E ml \in MutLayouts : LET s == SigToks(st.done, Layouts[ml]) IN
+             \/ \E i \in 1..Len(s), q \in OperandEdits : s[i].k = "num" /\ st' = [ph |-> "mut", how |-> "operand", sig |-> MutSplice(s, i, q)]
              \/ \E i \in 1..Len(s) : st' = [ph |-> "mut", how |-> "delete", sig |-> MutDelete(s, i)]
              \/ \E i \in 1..Len(s) : st' = [ph |-> "mut", how |-> "dup", sig |-> MutDup(s, i)]
              \/ \E i \in 1..(Len(s) - 1) : st' = [ph |-> "mut", how |-> "swap", sig |-> MutSwap(s, i)]
              \/ \E i \in 1..(Len(s) - 1) : st' = [ph |-> "mut", how |-> "trunc", sig |-> MutTrunc(s, i)]
-             \/ \E i \in 1..Len(s), t \in Alphabet : st' = [ph |-> "mut", how |-> "replace", sig |-> MutReplace(s, i, t)]
+             \/ \E i \in 1..Len(s), t \in MutAlphabet : st' = [ph |-> "mut", how |-> "replace", sig |-> MutReplace(s, i, t)]
              \/ \E i \in 1..Len(s), t \in Punct : st' = [ph |-> "mut", how |-> "insert", sig |-> MutInsert(s, i, t)]
 
 Next == DStart \/ DTArg \/ DBuiltin \/ DField \/ DFinishType \/ DFinishFn \/ Layout \/ Mutate
